@@ -11,7 +11,7 @@ from contracts.bounded_lib import pmap
 
 LEVEL = "other"
 MANIFEST_ENTRY = {
-    "text": "Deductive part (DownloadNode): when a segment fetch ends -- process_blocks after decoding succeeded, process_blocks after decoding or the ciphertext hash check FAILED, or fetch_failed -- every reader waiting for that segment number receives the result or the failure, readers of other segments stay queued, the node has no active segment any more and _start_new_segment() starts the fetch for the next queued request; so a failed read never blocks later reads on the same file object. Bounded part (SegmentFetcher, the real class run natively with fake shares): for every k in 1..3, every set of up to 4 shares over share numbers {0,1,2} on two servers, every assignment of a final verdict to each share (good / corrupt / dead), and EVERY schedule of the events 'share found', 'request answered', 'request overdue', 'no more shares' (exhaustive DFS, 3 shares; seeded random schedules for 4): once every share has been announced, every request answered and no-more-shares delivered, the fetcher has reported exactly once -- process_blocks with k validated blocks of distinct share numbers if at least k distinct share numbers had a good share, otherwise fetch_failed with NoSharesError / NotEnoughSharesError -- never both, never twice, never with fewer than k blocks, and it requests nothing after reporting.",
+    "text": "Deductive part (DownloadNode): when a segment fetch ends -- process_blocks after decoding succeeded, process_blocks after decoding or the ciphertext hash check FAILED, or fetch_failed -- every reader waiting for that segment number receives the result or the failure, readers of other segments stay queued, the node has no active segment any more and _start_new_segment() starts the fetch for the next queued request; so a failed read never blocks later reads on the same file object. Bounded part (SegmentFetcher, the real class run natively with fake shares): for every k in 1..3, every set of up to 4 shares over share numbers {0,1,2} on two servers, every assignment of a final verdict to each share (good / corrupt / dead), and EVERY schedule of the events 'share found', 'request answered', 'request overdue', 'no more shares' (exhaustive DFS, 3 shares; seeded random schedules for 4): once every share has been announced, every request answered and no-more-shares delivered, the fetcher has reported exactly once -- process_blocks with k validated blocks of distinct share numbers if at least k distinct share numbers had a good share, otherwise fetch_failed with NoSharesError / NotEnoughSharesError -- never both, never twice, never with fewer than k blocks, and it requests nothing after reporting. Further small-state run-time contracts: ShareFinder.hungry() always marks the finder hungry and schedules a loop turn, and ShareFinder.loop() tells the consumer 'no more shares' exactly when it is running and hungry, no server is left and NO request (overdue or not) is still in flight (every state with up to 2 pending requests); Share._got_data marks exactly the missing tail of a short answer as unavailable (all small ranges). Segmentation (deductive, Deferred-chain model): whatever a segment request ends with, the read either issues a new request (a wrong guess of the segment number, once the real size is known) or fires its Deferred with the failure -- never neither.",
     "note": "Termination of the whole download (ShareFinder DYHB loop, Share state machine with its own timers, reactor fairness) is liveness over an unbounded event system and stays outside contracts; the bounded exploration is a stand-in labelled bounded and never counted as proved. Found and fixed with it: D22.",
     "technique": "contract-based deductive verification (pyvc VCs + z3, Deferred-chain model) of DownloadNode; SegmentFetcher by bounded exhaustive exploration of event schedules against a run-time contract",
 }
@@ -333,9 +333,172 @@ def fetcher_check(rep, tier, prop):
                            "native_outcome": "%s (%d failing explorations)" % ("; ".join(b[1][:2]), len(bad)), "confirmed_on_real_code": True})
 
 
+# ------------------------------------------------------------------ ShareFinder.hungry/loop and Share._got_data: exhaustive over small states
+
+def finder_failures():
+    import allmydata.immutable.downloader.finder as FN
+    bad = []
+    n = 0
+    real_ev = FN.eventually
+
+    class Tok(object):
+        def __init__(self, nm):
+            self.nm = nm
+            self.server = type("S", (), {"get_name": lambda self_: "srv-" + nm})()
+
+        def __repr__(self):
+            return self.nm
+    TOK = {"r1": Tok("r1"), "r2": Tok("r2")}
+    try:
+        for running in (True, False):
+            for hungry in (True, False):
+                for pend in ((), ("r1",), ("r1", "r2")):
+                    for over in [o for k in range(len(pend) + 1) for o in itertools.combinations(pend, k)]:
+                        for servers in ("none", "empty", "one"):
+                            for maxout in (1, 2):
+                                for call in ("loop", "hungry"):
+                                    n += 1
+                                    sched, sent = [], []
+                                    FN.eventually = lambda f, *a, **k: sched.append(getattr(f, "__name__", repr(f)))
+                                    class Consumer(object):
+                                        def no_more_shares(self):
+                                            pass
+                                    consumer = Consumer()
+                                    f = object.__new__(FN.ShareFinder)
+                                    f.running, f._hungry, f._started = running, hungry, True
+                                    f.pending_requests, f.overdue_requests = set(TOK[x] for x in pend), set(TOK[x] for x in over)
+                                    f._servers = None if servers == "none" else iter([] if servers == "empty" else ["srvX"])
+                                    f.max_outstanding_requests = maxout
+                                    f.share_consumer = consumer
+                                    f._lp, f._si_prefix = None, "abc"
+                                    f.send_request = lambda server: sent.append(server)
+                                    f.log = lambda *a, **k: None
+                                    getattr(f, call)()
+                                    if call == "hungry":
+                                        ok = f._hungry is True and sched == ["loop"]
+                                        why = "hungry() must always mark the finder hungry and schedule a loop turn"
+                                    else:
+                                        non_overdue = set(pend) - set(over)
+                                        idle = (not running) or (not hungry) or len(non_overdue) >= maxout
+                                        if idle:
+                                            ok, why = (sched == [] and sent == []), "an idle finder does nothing"
+                                        elif servers == "one":
+                                            ok, why = (sent == ["srvX"] and sched == ["loop"]), "a hungry finder with a server left asks it and loops again"
+                                        elif pend:
+                                            ok, why = (sched == [] and sent == []), "no_more_shares must wait for EVERY request still in flight, overdue or not"
+                                        else:
+                                            ok, why = (sched == ["no_more_shares"] and sent == []), "with no server left and nothing in flight the consumer is told there are no more shares"
+                                    if not ok:
+                                        bad.append({"call": call, "running": running, "hungry": hungry, "pending": list(pend), "overdue": list(over), "servers": servers,
+                                                    "max_outstanding": maxout, "scheduled": sched, "sent": sent, "violated": why})
+    finally:
+        FN.eventually = real_ev
+    return bad, n
+
+
+def got_data_failures():
+    import allmydata.immutable.downloader.share as SH
+    from allmydata.util.spans import Spans, DataSpans
+    bad = []
+    n = 0
+    ev = type("E", (), {"finished": lambda self, *a: None})()
+    for start in range(0, 6):
+        for length in range(1, 6):          # a request always asks for at least one byte
+            for got in range(0, length + 1):
+                n += 1
+                s = object.__new__(SH.Share)
+                s._alive, s._lp = True, None
+                s._storage_index, s._shnum = b"s" * 16, 1
+                s._server = type("Srv", (), {"get_name": lambda self_: b"srv", "get_longname": lambda self_: "server"})()
+                s._si_prefix = "abc"
+                s._pending, s._received, s._unavailable = Spans(start, length) if length else Spans(), DataSpans(), Spans()
+                data = bytes(65 + i for i in range(got))
+                try:
+                    SH.Share._got_data(s, data, start, length, ev, None)
+                    want_un = Spans(start + got, length - got) if got < length else Spans()
+                    ok = (list(s._unavailable) == list(want_un)) and (got == 0 or s._received.get(start, got) == data) and list(s._pending) == []
+                    err = None
+                except Exception as e:      # noqa
+                    ok, err = False, repr(e)
+                if not ok:
+                    bad.append({"start": start, "length": length, "received": got, "unavailable": [list(x) if isinstance(x, tuple) else x for x in s._unavailable], "error": err})
+    return bad, n
+
+
+def small_state_checks(rep, prop):
+    for name, fn, bound in (("ShareFinder:hungry-always-schedules-a-turn-and-no_more_shares-only-when-nothing-is-in-flight", finder_failures,
+                             "ShareFinder.loop/hungry: every state with <= 2 pending requests (any subset overdue), servers none/exhausted/one left, running/hungry flags, max_outstanding 1..2"),
+                            ("Share:a-short-answer-marks-exactly-the-missing-tail-unavailable", got_data_failures, "Share._got_data: start 0..5, length 1..5, every answer length 0..length")):
+        bad, n = fn()
+        rep.obligations += 1
+        rep.bounded_obligations += 1
+        rep.paths += n
+        rep.sym_paths += n
+        rep.bounds.append(bound + " (%d states)" % n)
+        if not bad:
+            rep.discharged += 1
+            rep.discharged_names.add(name)
+            continue
+        rep.violations.append({"property": prop, "contract": name.split(":")[0], "obligation": name, "status": "runtime", "inputs": bad[0],
+                               "native_outcome": "%d of %d states fail; first: %r" % (len(bad), n, bad[0]), "confirmed_on_real_code": True})
+
+
 def extra_checks(rep, tier):
     fetcher_check(rep, tier, "C46")
+    small_state_checks(rep, "C46")
+
+
+class SegmentationOutcome(Spec):
+    """whatever the segment request ends with, the read goes on with a new request or its Deferred fires"""
+    file = "allmydata/immutable/downloader/segmentation.py"
+    qualname = "Segmentation._fetch_next"
+    cross_check = 0
+    raises = ()
+    canary_case = {"outcome": "badsegnum", "guess": True}
+
+    def inputs(self):
+        return {"outcome": ChoiceK(["badsegnum", "wrongsegment", "other"]), "guess": ChoiceK([False, True])}
+
+    def all_cases(self):
+        return [{"outcome": o, "guess": g} for o in ("badsegnum", "wrongsegment", "other") for g in (False, True)]
+
+    def config(self):
+        return {"overrides": dict(LOG)}
+
+    def run(self, I, a):
+        from pyvc.models_tahoe import DStub
+        from allmydata.immutable.downloader.common import BadSegmentNumberError, WrongSegmentError
+        self._req, self._errback = [], []
+        ds = []
+
+        def get_segment(I_, a_, k_):
+            d = DStub("pending")
+            ds.append(d)
+            self._req.append(a_[0])
+            return (d, stub("cancel", cancel=noop))
+        node = stub("node", segment_size=(None if a["guess"] else 4096), guessed_segment_size=1 << 20, get_segment=get_segment, _si_prefix="abc")
+        dd = stub("deferred", callback=noop, errback=lambda I_, a_, k_: self._errback.append(a_[0]))
+        cons = stub("consumer")
+        sg = SObj(self.module().Segmentation, {"_node": node, "_offset": 5000000, "_size": 10, "_consumer": cons, "_deferred": dd, "_lp": None,
+                                              "_alive": True, "_hungry": True, "_active_segnum": None, "_cancel_segment_request": None})
+        I.call_value(self.target(I), [sg], {})
+        node.fields["segment_size"] = 4096             # by the time the request fails the UEB (and with it the real size) is known
+        f = failure_stub({"badsegnum": BadSegmentNumberError, "wrongsegment": WrongSegmentError, "other": RuntimeError}[a["outcome"]], "x")
+        self._f = f
+        fire_chain(I, ds[0], f)
+        return sg
+
+    def ensures(self, I, a, out):
+        retried = len(self._req) == 2
+        ended = len(self._errback) == 1 and getattr(self._errback[0], "exc_cls", None) is self._f.exc_cls
+        may_retry = a["guess"] and a["outcome"] in ("badsegnum", "wrongsegment")
+        return [("the-read-goes-on-or-ends-never-neither", z3.BoolVal(retried != ended)),
+                ("a-wrong-guess-is-retried-with-the-real-segment-size", z3.BoolVal(retried == may_retry and (not retried or self._req[1] == 5000000 // 4096))),
+                ("any-other-failure-ends-the-read-with-that-failure", z3.BoolVal(ended == (not may_retry)))]
+
+    def canary(self, I, a, out):
+        return [("canary", z3.BoolVal(len(self._req) == 1))]
 
 
 def contracts(tier):
-    return [ProcessBlocks(), FetchFailed()]
+    return [ProcessBlocks(), FetchFailed(), SegmentationOutcome()]
